@@ -448,6 +448,10 @@ func (ec *evalCtx) binop(op token.Token, a, b Value, t types.Type, pos token.Pos
 }
 
 func (ec *evalCtx) eqValues(a, b Value) *Term {
+	if ec.spec && (a == nil || b == nil) {
+		// an element of a nil / empty slice: no such element exists (any index bound over it is empty)
+		return True
+	}
 	if _, ok := a.(nilMarker); ok {
 		a, b = b, a
 	}
@@ -1215,11 +1219,17 @@ func (ec *evalCtx) confine(v *types.Var, pos token.Pos, what string) {
 	}
 	key := v.Pkg().Path() + "." + v.Name()
 	if mu, ok := ec.e().cs.Guards[key]; ok {
-		held, _ := ec.st.ghost["lock:"+mu].(*Term)
-		if held == nil {
-			held = False
+		get := func(k string) *Term {
+			if t, ok := ec.st.ghost[k+mu].(*Term); ok {
+				return t
+			}
+			return False
 		}
-		ec.fc.oblige(ec.st, "confine", held, pos, what+" of package-level "+v.Name()+" requires "+mu+" to be held")
+		if what == "write" {
+			ec.fc.oblige(ec.st, "confine", get("lock:"), pos, "write of package-level "+v.Name()+" requires "+mu+" to be held exclusively")
+		} else {
+			ec.fc.oblige(ec.st, "confine", Or(get("lock:"), get("rlock:")), pos, what+" of package-level "+v.Name()+" requires "+mu+" to be held")
+		}
 		return
 	}
 	ec.fc.oblige(ec.st, "confine", False, pos, what+" of package-level variable "+v.Name()+", which is assigned somewhere in the package and has no guard: shared mutable state on the render path")
